@@ -70,6 +70,8 @@ type Conn struct {
 	writeBuf       []byte
 	writeHeaderBuf [8]byte
 	writeHeader    header
+	// wroteClose is set once a close frame has been written. Protected by writeFrameMu.
+	wroteClose bool
 
 	closeReadMu   sync.Mutex
 	closeReadCtx  context.Context
